@@ -2,8 +2,9 @@
    Model/TokenFlow.v (call-queue slots); a worker runs at most one task at a time by construction of the worker loop. *)
 From Coq Require Import List Arith Bool.
 From LokyV Require Import Lib.LedgerLib Lib.PoolLib Gen.Ledger Gen.Pool Model.Pool Proofs.PoolThm.
-From LokyV Require Lib.ResizeLib Gen.Resize.
+From LokyV Require Lib.ResizeLib Gen.Resize Model.QueueCap Proofs.QueueCapThm.
 Module ResizeG := LokyV.Gen.Resize.
+Module QC := LokyV.Model.QueueCap.
 Import ListNotations.
 
 (* every history, resize top-ups from user threads included: never more registered workers than max_workers *)
@@ -33,3 +34,47 @@ Theorem C08_structure :
   /\ ResizeG.call_queue_is_sized_from_the_host_cpu_count = true.
 Proof. repeat split; reflexivity. Qed.
 Print Assumptions C08_structure.
+
+(* ---- "actually delivered", counting RUNNING TASKS (Model/QueueCap.v: backlog, call-queue slots, busy workers, the sleeping manager) ----
+   The full statement: once everything has settled (tasks that never end included) min(workers, unfinished tasks) tasks are running. *)
+
+(* a plain executor (its queue has [plain_queue_slots max_workers] slots, formula regenerated from the source) delivers it, for every
+   history of submits, manager rounds, worker takes and task completions *)
+Theorem C08_plain_executor_delivers_its_parallelism :
+  forall mw es, let s := QC.run false (ResizeG.plain_queue_slots mw) mw es QC.q0 in
+    QC.settled (ResizeG.plain_queue_slots mw) mw s = true -> QC.r s = Nat.min mw (QC.unfinished s).
+Proof.
+  intros mw es. apply QueueCapThm.settled_parallelism_when_the_queue_is_large_enough. unfold ResizeG.plain_queue_slots.
+  rewrite Nat.add_comm. simpl. rewrite Nat.add_0_r. apply le_S, Nat.le_add_r.
+Qed.
+Print Assumptions C08_plain_executor_delivers_its_parallelism.
+
+(* so does the reusable executor as long as it has no more workers than its queue has slots (sized from the host) *)
+Theorem C08_reusable_executor_delivers_up_to_its_queue_capacity :
+  forall cpus mw es, mw <= ResizeG.reusable_queue_slots cpus ->
+    let s := QC.run false (ResizeG.reusable_queue_slots cpus) mw es QC.q0 in
+    QC.settled (ResizeG.reusable_queue_slots cpus) mw s = true -> QC.r s = Nat.min mw (QC.unfinished s).
+Proof. intros cpus mw es L. apply QueueCapThm.settled_parallelism_when_the_queue_is_large_enough, L. Qed.
+Print Assumptions C08_reusable_executor_delivers_up_to_its_queue_capacity.
+
+(* never more running tasks than workers; in general at least min(workers, slots, unfinished) *)
+Theorem C08_delivered_parallelism_partial :
+  forall cap W es, let s := QC.run false cap W es QC.q0 in
+    QC.r s <= Nat.min W (QC.unfinished s) /\ (QC.settled cap W s = true -> Nat.min W (Nat.min cap (QC.unfinished s)) <= QC.r s).
+Proof. intros cap W es s. split; [apply QueueCapThm.running_bounded | apply QueueCapThm.settled_parallelism_partial]. Qed.
+Print Assumptions C08_delivered_parallelism_partial.
+
+(* the full statement is FALSE for every queue with fewer slots than the pool has workers (the reusable executor resized or created
+   beyond 2 * cpu_count() + 1 workers): W tasks that do not end, only [cap] of them run, W - cap workers stay idle -- finding H19 *)
+Theorem C08_delivered_parallelism_refuted_for_small_queues :
+  forall cap W, cap < W -> exists es, let s := QC.run false cap W es QC.q0 in
+    QC.settled cap W s = true /\ QC.r s = cap /\ QC.unfinished s = W /\ QC.r s < Nat.min W (QC.unfinished s).
+Proof. intros cap W L. exists (QueueCapThm.small_queue_history cap W). apply QueueCapThm.every_small_queue_starves, L. Qed.
+Print Assumptions C08_delivered_parallelism_refuted_for_small_queues.
+
+(* the repair direction: a manager woken whenever a slot is freed would deliver it for every queue size *)
+Theorem C08_wake_on_take_would_deliver :
+  forall cap W es, 0 < cap -> let s := QC.run true cap W es QC.q0 in
+    QC.settled cap W s = true -> QC.r s = Nat.min W (QC.unfinished s).
+Proof. exact QueueCapThm.wake_on_take_would_deliver. Qed.
+Print Assumptions C08_wake_on_take_would_deliver.
